@@ -146,7 +146,14 @@ def split_google_docblocks(docstr):
                 indent_adjust = min(indents[1:])
                 line_indent[0] += indent_adjust
                 line_len[0] += indent_adjust
-                docstr_lines[0] = (' ' * indent_adjust) + docstr_lines[0]
+                # Pad with the leading whitespace of a least indented line
+                # itself (it may consist of tabs), so that dedent removes it.
+                padding = ' ' * indent_adjust
+                for line_, indent_, flag in zip(docstr_lines[1:], line_indent[1:], is_nonzero[1:]):
+                    if flag and indent_ == indent_adjust:
+                        padding = line_[:indent_adjust]
+                        break
+                docstr_lines[0] = padding + docstr_lines[0]
                 adjusted = True
     if adjusted:
         # Redo prepreocessing, but this time on a rectified input
